@@ -5,9 +5,9 @@ CONSTANTS
   DlOffsets = {3, 5, 8}
   Pers = {0, 1}
   Grants = {1}
-  Advs = {1, 2}
-  OpTimes = {0, 1}
-  TaskTimes = {0, 1}
+  Advs = {1}
+  OpTimes = {1}
+  TaskTimes = {1}
   MaxOps = 3
   MaxTicks = 4
   Variant = "code"
